@@ -22,7 +22,7 @@ PROP = dict(
         "THEOREM now (C09.file_layer_is_C11, Proofs/TrieLink.lean, from C11's read_write / lookup_correct / first_n_prefix / "
         "first_phrase_correct / entries_correct / writes_within_limits): for entries valid for the Rust types the bytes TrieBuilder::write "
         "produces open, and the real reader's lookup_all_phrases (exact AND prefix), lookup_first_n_phrases, lookup_first_phrase return the "
-        "SAME LISTS as Trie.lookupAll / lookupFirstN on Trie.build es; entries() the same entries (permutation; per key the same order). "
+        "SAME LISTS as Trie.lookupAll / lookupFirstN on Trie.build es; entries() the same entries (permutation; per key the same order; which permutation: file_entries_order). "
         "Pieces: comparator_is_C11 (leafCmp, updated to fix ddfe893, = C11's phraseLt), leaf_order_is_C11 (isort = sortLeaf: stable sorts "
         "under a total preorder are unique, Proofs/StableSort.lean), builder_insert_is_C11 (insRepl = upsert on leaves with distinct texts), "
         "the byte-level fuzzy walk visits keys in lexicographic order (reach_paths_sorted). Explicit hypotheses: ValidInput, Fits",
@@ -63,7 +63,8 @@ MANIFEST = dict(
          "under — so for a PREFIX query pending/tombstoned entries cannot be merged by key without a key-yielding lookup in trie.rs "
          "(interface change, recorded, not fixed). Trusted: Lean kernel (propext, Classical.choice, Quot.sound), the harness, "
          "the compiled model driver, the relational reading of SQL. Not covered: SQLite v1 migration, concurrent writer "
-         "schedules (C10), order of Trie::entries across keys (C11 proves the enumeration up to permutation of the keys). The byte format is no "
+         "schedules (C10). The order of Trie::entries across keys is no longer open: C09.file_entries_order (from C11.entries_order) — the real "
+         "iterator lists the leaves of the file with every maximal prefix chain of the sorted key list reversed. The byte format is no "
          "longer an uncovered assumption: C09.file_layer_is_C11 / snapshot_file_is_C11 derive the List-Leaf file layer from C11's theorems.",
     technique="Lean 4 proof (refinement by invariant + induction over histories, permutation/pairwise reasoning on lists) over a hand-written executable model; sampled model/implementation correspondence with a reference-map oracle",
 )
